@@ -26,6 +26,9 @@ def unknown_names(tb, rnd):
             out.append((cat, n + '@example.org'))
             if '@' in n:
                 out.append((cat, n.split('@')[0] + '@openssh.org'))
+        out.append((cat, ' ' + names[0]))                     # a name padded with a blank or a tab is a different name
+        out.append((cat, names[1] + ' '))
+        out.append((cat, names[2] + '\t'))
         out.append((cat, 'foo-%s' % cat))
         out.append((cat, 'x'))
     return out
@@ -95,6 +98,14 @@ def build_cases(tb, rnd, tier):
             c = rating.mk_case(cid[0], role=role, **d)
             cases.append(c)
             meta[c['id']] = (sorted(cr)[0], cr[sorted(cr)[0]][0], 'same-name-two-categories')
+    # the two directions of a KEXINIT name different MACs: a server is judged on (and shown with) its server-to-client lists
+    for k, (mac, mac_c2s) in enumerate(((['hmac-sha2-256'], ['hmac-sha2-256-etm@openssh.com']), (['hmac-sha2-256-etm@openssh.com', 'hmac-sha1'], ['hmac-sha2-256']),
+                                        (['umac-128-etm@openssh.com'], ['umac-128-etm@openssh.com']))):
+        cid[0] += 1
+        c = rating.mk_case(cid[0], role='server', kex=['curve25519-sha256'], key=['ssh-ed25519'], enc=['aes128-cbc', 'aes256-ctr'], mac=mac,
+                           enc_c2s=['aes256-ctr'] if k == 2 else ['aes128-cbc', 'aes256-ctr'], mac_c2s=mac_c2s)
+        cases.append(c)
+        meta[c['id']] = ('mac', mac[0], 'asymmetric-directions')
     # measured context: the same name with different measured sizes, text vs JSON must agree with the rule
     ossh = {'product': 'OpenSSH', 'c': [8, 9], 'p': ['p', 1]}
     for bits in (1024, 2048, 3072, 4096):
@@ -132,6 +143,8 @@ def run(tier):
         for v in views:
             res, sc = results[k], scs[k]
             k += 1
+            if v == 'text' and isinstance(focus, str) and focus != focus.strip():
+                continue        # a name padded with blanks cannot be told from the plain one in the column layout of the text report: JSON decides
             ck.evaluated()
             ck.nontrivial((cat, focus, pos, c['role'], v))
             if res.get('harness_error') or res.get('hang'):
